@@ -59,8 +59,8 @@ var (
 		CoreSize:   256,
 		Processes:  60,
 		Cycles:     2560,
-		ReadLimit:  800,
-		WriteLimit: 800,
+		ReadLimit:  256,
+		WriteLimit: 256,
 		Length:     10,
 		Distance:   10,
 	}
